@@ -40,9 +40,17 @@ Definition set_of (l : list term) : term := TL (TS "#set" :: l).
 Definition eqv_canon (i m o : term) : bool := term_eqb (canon m) (canon o).
 
 (* ---- options ---- *)
+(* the options as the entry point received them (fields 14.. are absent in older cases and then
+   decode to "not set"), turned into what the report works with by the glue model of M_Report *)
 Definition ropts_of (t : term) : ropts :=
-  mk_ropts (gs (gn t 0)) (gb (gn t 1)) (gb (gn t 2)) (gs (gn t 3)) (gb (gn t 4)) (gb (gn t 5)) (gb (gn t 6))
-           (gs (gn t 7)) (gs (gn t 8)) (gs (gn t 9)) (gb (gn t 10)) (gz (gn t 11)) (gz (gn t 12)) (gz (gn t 13)).
+  let format := gs (gn t 9) in
+  let notrim := gb (gn t 14) in
+  let legacy := gss (gn t 17) in
+  let n0 := entry_nodecount (gs (gn t 18)) format (gb (gn t 19)) (gz (gn t 20)) (gz (gn t 11)) in
+  mk_ropts (gs (gn t 0)) (gb (gn t 1)) (gb (gn t 2)) (gs (gn t 3)) (legacy_mean legacy (gb (gn t 4)))
+           (gb (gn t 5)) (gb (gn t 6)) (gs (gn t 7)) (gs (gn t 8)) format (gb (gn t 10))
+           (override_nodecount format notrim n0) (override_cutoff format notrim (gz (gn t 12)))
+           (override_cutoff format notrim (gz (gn t 13))) (gs (gn t 15)) (gs (gn t 16)).
 
 (* answer table for measurement.ScaledLabel on numeric tag values (tagroot/tagleaf):
    entries [value; unit-key; string] *)
